@@ -172,6 +172,21 @@ class LenEval(object):
                 return {('len', self._canon_text(fn.value, env)): 1}
             raise Unsupported('call %s' % norm(expr))
         if isinstance(expr, ast.Attribute):
+            # class-level bytes constant (self.PDU_CODE / Class.PDU_CODE): same length in every subclass?
+            if isinstance(expr.value, ast.Name) and expr.value.id in ('self', 'cls') and ctx is not None and ctx.root is not None:
+                vals = set()
+                for c in self.p.subclasses(ctx.root):
+                    a = self.p.lookup(c, expr.attr)
+                    if isinstance(a, tuple) and a[0] == 'attr':
+                        v = try_const(a[2])
+                        vals.add(len(v) if isinstance(v, (bytes, bytearray)) else None)
+                if vals and None not in vals and len(vals) == 1:
+                    return F(vals.pop())
+            r = self.p.resolve_expr(func.module, expr, scope=func) if isinstance(expr.value, ast.Name) else None
+            if r is not None and r[0] == 'expr':
+                v = try_const(r[1])
+                if isinstance(v, (bytes, bytearray)):
+                    return F(len(v))
             return {('len', self._canon_text(expr, env)): 1}
         if isinstance(expr, ast.Subscript):
             return {('len', self._canon_text(expr, env)): 1}
@@ -253,6 +268,21 @@ class LenEval(object):
                 if not isinstance(cur, dict):
                     raise Unsupported('+= on unknown %s' % st.target.id)
                 env[st.target.id] = add(cur, self.length(st.value, f, ctx, env))
+                continue
+            if isinstance(st, ast.Expr) and isinstance(st.value, ast.Call) and isinstance(st.value.func, ast.Attribute) \
+                    and isinstance(st.value.func.value, ast.Name) and st.value.func.attr in ('append', 'extend') \
+                    and isinstance(env.get(st.value.func.value.id), dict):
+                name = st.value.func.value.id
+                if st.value.func.attr == 'append':
+                    env[name] = add(env[name], F(1))
+                else:
+                    a = st.value.args[0]
+                    if isinstance(a, (ast.List, ast.Tuple)):
+                        env[name] = add(env[name], F(len(a.elts)))
+                    else:
+                        env[name] = add(env[name], self.length(a, f, ctx, env))
+                continue
+            if isinstance(st, ast.Expr) and isinstance(st.value, ast.Call):
                 continue
             if isinstance(st, ast.If):
                 tv = self._truth(st.test, f, ctx, env)
